@@ -465,6 +465,11 @@ simcam_start(struct Camera* camera)
     self->streamer.is_running = 1;
     self->im.last_emitted_frame_id = -1;
     self->im.frame_id = -1;
+    // A trigger fired by an earlier stop() or set() must not leak into this
+    // run: with the software trigger enabled it would produce a frame that
+    // nobody triggered.
+    self->software_trigger.triggered = 0;
+    self->im.frame_wanted = 0;
     TRACE("SIMULATED CAMERA: thread launch");
     CHECK(thread_create(&self->streamer.thread,
                         (void (*)(void*))simulated_camera_streamer_thread,
